@@ -13,6 +13,12 @@ def query (c : Content) (q : Json) : Except String Json := do
   match ← jArr q with
   | [.str "init"] => pure (resJ (assocJ ratJ) (Mxl.getInit c))
   | [.str "simy0"] => pure (resJ (assocJ ratJ) (Mxl.getInit c))
+  | [.str "simupd", upd] => do
+      -- `Simulator(model).update_variables(upd)` before any simulation: y0 = init | upd; the model is untouched
+      let u ← jAssoc jRat upd
+      pure (resJ (assocJ ratJ) (do
+        let init ← Mxl.getInit c
+        pure (init.map fun kv => (kv.1, (u.lookup kv.1).getD kv.2))))
   | [.str "pvals"] => pure (resJ (assocJ ratJ) (Mxl.getParameterValues c))
   | [.str "classes"] => pure (resJ (fun p => Json.arr #[strsJ p.1, strsJ p.2]) (Mxl.getClasses c))
   | [.str "args", v, t] => pure (resJ (assocJ ratJ) (Mxl.getArgs c (← optVars v) (← jRat t)))
